@@ -143,4 +143,27 @@ theorem cumulate_getLast (acc : V) : ∀ cs : List V, cs ≠ [] →
       rw [List.getLast?_cons_cons]
       exact hl
 
+/-- the replayed buckets always have one cell per bound -/
+theorem observeBuckets_length (o : V) : ∀ (bs cs : List V), (observeBuckets o bs cs).length = cs.length
+  | [], cs => by cases cs <;> rfl
+  | _ :: _, [] => rfl
+  | b :: bs, c :: cs => by
+    simp only [observeBuckets]
+    split
+    · rfl
+    · simp [observeBuckets_length o bs cs]
+
+theorem reachable_buckets_length (d : Decl V) (bs : List (V × Str)) (hk : d.kind = .histogram bs)
+    (acts : List (Action V)) : (childOf d acts).buckets.length = bs.length := by
+  obtain ⟨_, h2⟩ := histogram_cells d bs hk acts
+  rw [h2]
+  generalize observations acts = obs
+  have : ∀ (cs : List V), cs.length = bs.length →
+      (obs.foldl (fun cs o => observeBuckets o (bs.map (·.1)) cs) cs).length = bs.length := by
+    induction obs with
+    | nil => intro cs h; exact h
+    | cons o os ih => intro cs h; exact ih _ (by rw [observeBuckets_length]; exact h)
+  exact this _ (by simp)
+
+
 end PromVerif.Lemmas.Metrics
